@@ -316,6 +316,9 @@ func TestVerifDriver(t *testing.T) {
 	default:
 		t.Fatalf("unknown property %s", prop)
 	}
+	for i, hg := range vHangs {
+		em.emit(vCase{Prop: prop, Kind: "hang", Class: "hang/authenticate", Nontrivial: true, Violation: hg, Human: map[string]interface{}{"n": i}})
+	}
 	em.emit(vCase{Prop: prop, Kind: "stats", Class: "stats", Human: vStats})
 }
 
